@@ -1713,6 +1713,7 @@ func c15R5(c *Check, la *LockAnalysis) {
 // ---------------------------------------------------------------------------
 
 func checkC15(c *Check) {
+	lockBalanceRule(c, "C15", pTraffic)
 	la := c.P.Locks()
 	if s := c15resolveStats(c); s != nil {
 		c.Saw(s.T.Obj().Name())
